@@ -551,6 +551,7 @@ def mk(ty, name, args=()):
         d = SDict(keys, dom, val, idx, kwrap)
         d.ksort = ksort
         d.base = True
+        d.base_id = name + "(" + ",".join(str(a) for a in args) + ")"
         return d
     if isinstance(ty, TSet):
 
@@ -600,6 +601,8 @@ def wf(v, depth=0):
         out.append(v.n >= 0)
     elif isinstance(v, SDict):
         out.append(v.keys.n >= 0)
+        if getattr(v, "base", False):
+            out += dict_wf_facts(v, v.base_id)
     elif isinstance(v, SSet):
         if v.card is not None:
             out.append(v.card >= 0)
